@@ -1,19 +1,19 @@
 // counterexample for harness c13::c13_set_final_refund (property C13)
-// failed checks: [{"id": "c13::c13_set_final_refund.assertion.3", "description": "assertion failed: g.refunded() as u64 == want", "location": "src/c13.rs:133:5 in function c13::c13_set_final_refund"}]
-// native replay: native run panicked: panicked at src/c13.rs:133:5: assertion failed: g.refunded() as u64 == want
+// failed checks: [{"id": "c13::c13_set_final_refund.assertion.2", "description": "assertion failed: g.refunded() >= 0", "location": "src/c13.rs:132:5 in function c13::c13_set_final_refund"}, {"id": "c13::c13_set_final_refund.assertion.3", "description": "assertion failed: g.refunded() as u64 == want", "location": "src/c13.rs:133:5 in function c13::c13_set_final_refund"}]
+// native replay: native run panicked: panicked at src/c13.rs:132:5: assertion failed: g.refunded() >= 0
 // re-run: /verif/bin/check C13 --replay /verif/replays/C13/c13__c13_set_final_refund.rs
 // harness: c13::c13_set_final_refund
 #[test]
-fn kani_concrete_playback_c13_set_final_refund_4097904515645538492() {
+fn kani_concrete_playback_c13_set_final_refund_599362020148938233() {
     let concrete_vals: Vec<Vec<u8>> = vec![
-        // 14771806777775485976ul
-        vec![24, 244, 3, 0, 0, 0, 0, 205],
-        // 777777ul
-        vec![49, 222, 11, 0, 0, 0, 0, 0],
-        // 6481988724798249914
-        vec![186, 219, 175, 243, 102, 166, 244, 89],
-        // 1
-        vec![1],
+        // 18446744073709551614ul
+        vec![254, 255, 255, 255, 255, 255, 255, 255],
+        // 18446744073709551614ul
+        vec![254, 255, 255, 255, 255, 255, 255, 255],
+        // 9223372036854775807
+        vec![255, 255, 255, 255, 255, 255, 255, 127],
+        // 0
+        vec![0],
     ];
     kani::concrete_playback_run(concrete_vals, c13_set_final_refund);
 }
